@@ -29,6 +29,8 @@ diffs against the real functions on weakened arguments: `sound_length`, `sound_c
 `sound_concat_partial`, and the full-strength statement
 that is FALSE of the code as `SoundSetProduct` / `SoundSetHasElement` with `sound_setproduct_counterexample` /
 `sound_sethaselement_counterexample` (the recorded findings, as theorems about the model).
+Functions of primitive arguments that refuse unknowns (`upper`, `lower`, `substr`, `trim*`, `range`, …) are
+covered for ARBITRARY `Impl` by `sound_leaf_arguments` / `stdlib_static_leaf_functions_sound` (over the tables).
 Side conditions are explicit and decidable on instances; each theorem has a joint witness at the end of the
 file.  External libraries enter as parameters with named laws (`EnvConvertSound`, the segmentation law of
 `sound_strlen`), probed on the real library by the harness.
@@ -40,7 +42,7 @@ the replaced part.
 import CtyModel.Props.C11
 import CtyModel.Lemmas.CoversWeaken
 import CtyModel.Lemmas.C12Funcs
-import CtyModel.Lemmas.d12bLookupObj
+import CtyModel.Lemmas.d12bLeaf
 namespace CtyModel
 namespace C12
 open Fn Std
@@ -1087,6 +1089,46 @@ theorem soundSetHasElement_false : ¬ SoundSetHasElement := by
   rw [h4] at hc
   cases hc
 
+/-- **Functions of primitive arguments that refuse unknowns** — for ALL specs and callbacks: if every parameter
+says no `AllowUnknown` and the concrete arguments are strings, numbers or booleans (`isLeaf`), a weakened
+argument either is unknown, and the framework short-circuits, or IS the concrete argument: `Impl` never sees
+anything but the concrete argument list, and the call is sound whatever `Impl` does (`upper`, `lower`,
+`substr`, `trim*`, `range`, `abs`, `ceil`, …: most string, number and boolean functions of the stdlib). -/
+theorem sound_leaf_arguments (spec : Spec) (tf : TypeFn) (impl : ImplFn) (os ws : List Value) (r : Value)
+    (hm : Passes spec ws → TypeMonoAt tf os ws) (hTw : ∀ t, tf ws = .ok t → Ty.wf t = true)
+    (hk : ∀ a ∈ os, a.whollyKnown = true) (hleaf : ∀ a ∈ os, a.v.isLeaf = true)
+    (hmo : ∀ a ∈ os, a.containsMarked = false) (hmw : ∀ a ∈ ws, a.containsMarked = false)
+    (hcov : coversAll ws os = true) (hty : TyKeptU ws os)
+    (hnu : ∀ p ∈ spec.expand ws.length, p.allowUnknown = false) (hlen : (spec.expand ws.length).length = ws.length)
+    (hrwf : Ty.wf r.ty = true) (hrefl : Covers r r = true)
+    (hr : (callUnrefined spec tf impl os).1 = .ok r) :
+    ∃ r', (callUnrefined spec tf impl ws).1 = .ok r' ∧ Covers r' r = true :=
+  impl_soundness_lifts_to_call spec tf impl os ws r hm hTw (fun a ha => C12L.whollyKnown_isKnown (hk a ha)) hmo hmw hcov
+    (D12b.TyKeptU.toTyKept hty) hrwf hrefl
+    (fun _ hri => by
+      have hkn := D12b.pass2_all_known _ ws hri hlen hnu
+      rw [D12b.leaf_list_eq ws os hcov hty hkn hmw hmo hleaf]
+      exact D12b.implSoundAt_refl tf impl os) hr
+
+/-- … instantiated on the regenerated tables: every statically typed entry of the syntax table whose parameter
+declarations (parameter table) all refuse unknown arguments, called on primitive arguments — whatever its `Impl` -/
+theorem stdlib_static_leaf_functions_sound (sy : Generated.StdSyntax) (hsy : sy ∈ Generated.stdlibSyntax)
+    (s : Generated.StdSpec) (_hs : s ∈ Generated.stdlibSpecs) (_hv : sy.var = s.var)
+    (e : String) (he : sy.staticType = some e) (E : Stdlib.Env) (impl : ImplFn) (os ws : List Value) (r : Value)
+    (hk : ∀ a ∈ os, a.whollyKnown = true) (hleaf : ∀ a ∈ os, a.v.isLeaf = true)
+    (hmo : ∀ a ∈ os, a.containsMarked = false) (hmw : ∀ a ∈ ws, a.containsMarked = false)
+    (hcov : coversAll ws os = true) (hty : TyKeptU ws os)
+    (hnu : ∀ p ∈ (toSpec s).expand ws.length, p.allowUnknown = false)
+    (hlen : ((toSpec s).expand ws.length).length = ws.length)
+    (hrwf : Ty.wf r.ty = true) (hrefl : Covers r r = true) :
+    ∃ T tf, staticTy? e = some T ∧ tfOf E sy = some tf ∧
+      ((callUnrefined (toSpec s) tf impl os).1 = .ok r →
+        ∃ r', (callUnrefined (toSpec s) tf impl ws).1 = .ok r' ∧ Covers r' r = true) := by
+  obtain ⟨T, hT, htf⟩ := C11.tfOf_static E sy hsy e he
+  refine ⟨T, C11.staticType T, hT, htf, fun hr => ?_⟩
+  exact sound_leaf_arguments _ _ impl os ws r (fun _ => D12b.typeMonoAt_of_eq rfl)
+    (fun t ht => by cases ht; exact C11.staticTy_wf e T hT) hk hleaf hmo hmw hcov hty hnu hlen hrwf hrefl hr
+
 /-! ### the hypotheses are satisfiable -/
 
 example : TypeMonoW (C11.staticType (.list .string)) := static_typeMonoW _
@@ -1395,6 +1437,16 @@ example : ∃ r', (callUnrefined Stdlib.lookupSpec (Stdlib.lookupType {}) (Stdli
     (by intro t h; have e : Stdlib.lookupType {} [exObjW, ⟨.string, .s "b"⟩, ⟨.string, .s "d"⟩] = .ok .string := rfl
         rw [e] at h; cases h; rfl)
     (by decide) (by decide) (by rfl)
+
+/-- a one-string function that refuses unknowns (the shape of `upper`, `lower`, `trimspace`, …), any `Impl`:
+the argument weakened to an unknown string -/
+example : ∃ r', (callUnrefined { params := [{ ty := .string }] } (C11.staticType .string)
+      (fun as _ => .ok (as.headD ⟨.string, .s ""⟩)) [⟨.string, .unk (.nullable .f)⟩]).1 = .ok r' ∧
+    Covers r' ⟨.string, .s "ab"⟩ = true :=
+  sound_leaf_arguments { params := [{ ty := .string }] } (C11.staticType .string) (fun as _ => .ok (as.headD ⟨.string, .s ""⟩))
+    [⟨.string, .s "ab"⟩] [⟨.string, .unk (.nullable .f)⟩] ⟨.string, .s "ab"⟩ (fun _ => D12b.typeMonoAt_of_eq rfl)
+    (fun t ht => by cases ht; rfl) (by decide) (by decide) (by decide) (by decide) (by decide) ⟨Or.inl rfl, trivial⟩
+    (by decide) rfl (by decide) (by decide) (by rfl)
 
 end C12
 end CtyModel
